@@ -67,20 +67,22 @@ def body(run):
     exe = [None]
     run.parallel(
         lambda: run.tlc("Monitor", "Monitor", "Monitor_mc.cfg" if q else "Monitor_mc_thorough.cfg",
-                        label="contract: pipeline model satisfies InvNotifyNode / ConvergesToLatest / ...", timeout=3000),
-        lambda: run.tlc("Monitor", "Monitor", "Monitor_dev_reuse.cfg", expect="violation", count=False,
+                        label="contract: pipeline model satisfies InvNotifyNode / ConvergesToLatest / ...", timeout=3000, workers=4),
+        lambda: run.tlc("Monitor", "Monitor", "Monitor_dev_reuse.cfg", expect="violation", count=False, workers=4,
                         label="deviation demo: reused client handle"),
-        lambda: run.tlc("Monitor", "Monitor", "Monitor_dev_keepold.cfg", expect="violation", count=False,
+        lambda: run.tlc("Monitor", "Monitor", "Monitor_dev_keepold.cfg", expect="violation", count=False, workers=4,
                         label="deviation demo: publish queue keeps the older value"),
         lambda: exe.__setitem__(0, run.go_build("monitor")),
     )
     cases = []
     if q:
-        plan = [(3, 200, 0, 20, "cb", 0), (3, 200, 25, 20, "cb", 300), (2, 100, 0, 50, "chan", 500), (3, 150, 40, 10, "chan", 200)]
+        plan = [(3, 200, 0, 20, "cb", 0), (3, 200, 25, 20, "cb", 300), (2, 100, 0, 50, "chan", 500), (3, 150, 40, 10, "chan", 200),
+                (2, 200, 400, 1, "cb", 0)]      # fast churn: many initial notifications race with a stream of writes
     else:
         plan = [(3, 200, 0, 20, "cb", 0), (3, 200, 6, 20, "cb", 300), (2, 100, 0, 50, "chan", 500), (3, 150, 8, 10, "chan", 200),
                 (16, 2000, 0, 20, "cb", 0), (16, 2000, 40, 20, "cb", 100), (8, 5000, 0, 10, "chan", 0), (8, 3000, 60, 10, "cb", 50),
-                (4, 1000, 30, 100, "cb", 1000), (1, 5000, 0, 5, "cb", 0), (6, 1000, 20, 1, "chan", 100), (16, 500, 100, 50, "chan", 200)]
+                (4, 1000, 30, 100, "cb", 1000), (1, 5000, 0, 5, "cb", 0), (6, 1000, 20, 1, "chan", 100), (16, 500, 100, 50, "chan", 200),
+                (2, 200, 400, 1, "cb", 0), (1, 200, 1500, 1, "chan", 0), (3, 200, 1000, 1, "cb", 20)]
     for i, (n, w, ch, iv, mode, pause) in enumerate(plan):
         cases.append({"id": i + 1, "nodes": n, "writes": w, "churn": ch, "interval": iv, "mode": mode, "pause": pause, "salt": i + 1})
     results = run.go_run(exe[0], [], cases=cases, timeout=2400)
